@@ -11,7 +11,9 @@ V = os.path.dirname(os.path.dirname(os.path.abspath(__file__)))
 EXTRA = {'C13-1': ['C01'], 'C12-1': ['C03'], 'C04-2': ['C08'], 'C01-2': ['C03'], 'C10-1': ['C08'], 'C08-1': ['C10'],
          'C02-6': ['C01'], 'C03-5': ['C01'], 'C06-5': ['C13', 'C07'], 'C06-6': ['C18'], 'C10-6': ['C08'], 'C13-6': ['C01'], 'C17-5': ['C01'], 'C02-4': ['C18'], 'C09-4': ['C02'], 'C10-3': ['C02'],
          'C03-7': ['C19', 'C04'], 'C05-7': ['C07'], 'C06-7': ['C15'], 'C06-8': ['C05', 'C01'], 'C07-7': ['C13'], 'C10-8': ['C08', 'C17'], 'C11-7': ['C15'],
-         'C14-7': ['C03'], 'C14-8': ['C13', 'C01'], 'C16-7': ['C03'], 'C19-7': ['C14', 'C03'], 'C19-8': ['C03'], 'C13-7': ['C02', 'C03']}
+         'C14-7': ['C03'], 'C14-8': ['C13', 'C01'], 'C16-7': ['C03'], 'C19-7': ['C14', 'C03'], 'C19-8': ['C03'], 'C13-7': ['C02', 'C03'],
+         'C03-9': ['C19'], 'C03-10': ['C17'], 'C05-9': ['C02', 'C17'], 'C06-9': ['C07'], 'C06-10': ['C07'], 'C08-10': ['C09', 'C03'], 'C10-9': ['C04', 'C01'],
+         'C11-9': ['C15'], 'C11-10': ['C01', 'C05'], 'C12-9': ['C17'], 'C13-10': ['C07'], 'C14-10': ['C03'], 'C17-10': ['C02'], 'C19-10': ['C03', 'C17'], 'C09-9': ['C10'], 'C17-9': ['C01']}
 TIER = os.environ.get('TIER', 'quick')
 VERDICT = {0: 'missed (check passes)', 1: 'detected (VIOLATION, natively replayed)', 2: 'inconclusive (no verdict)'}
 
